@@ -279,6 +279,29 @@ pub fn pow2_sparse(bits: usize) -> Vec<Limbs> {
     finish(out)
 }
 
+/// Operands RELATED to `a` (rather than extreme in themselves): a, !a, a +- 1, -a, -a +- 1, a/2, 2a, a with its
+/// limbs reversed, a xor (low limb pattern), 2^B - 1 - a + 2. Used for pair universes (a, related(a)).
+pub fn related(bits: usize, a: &[u64]) -> Vec<Limbs> {
+    let m = pow2(bits);
+    if bits == 0 {
+        return vec![vec![]];
+    }
+    let v = big(a);
+    let mx = &m - 1u32;
+    let mut out: Vec<BigUint> = vec![v.clone(), &mx - &v, (&v + 1u32) % &m, (&v + &mx) % &m, (&m - &v) % &m, (&m - &v + 1u32) % &m, (&m + &m - &v - 1u32) % &m, &v >> 1, (&v << 1) % &m, (&mx - &v + 2u32) % &m];
+    let mut rev: Vec<u64> = a.to_vec();
+    rev.reverse();
+    if let Some(l) = rev.last_mut() {
+        *l &= mask(bits);
+    }
+    out.push(big(&rev));
+    out.push(&v ^ (BigUint::from(0x0101_0101_0101_0101u64) % &m));
+    let mut r: Vec<Limbs> = out.into_iter().map(|x| to_limbs(&x, bits)).collect();
+    r.sort();
+    r.dedup();
+    r
+}
+
 pub fn max_limbs(bits: usize) -> Limbs {
     let n = nlimbs(bits);
     let mut v = vec![u64::MAX; n];
